@@ -466,11 +466,18 @@ def execute(cfg: dict, *, stop_at_first=True, trace=False) -> RunResult:
                     outs.append(o.value)
                     s2.stats.merge_into(counts)
                     res.coverage.setdefault("interleavings_extra", []).extend(s2.stats.digests)
+                # ... and under dask's own synchronous scheduler: cross-checks the scheduler stub itself
+                with dask.config.set(scheduler="synchronous"):
+                    o = oracle.capture(lambda: dask.compute(objs)[0])
+                if not o.ok:
+                    raise sched.SimHarnessError(f"S1 recompute under dask's scheduler failed: {o.exc_type}: {o.exc_msg}")
+                outs.append(o.value)
                 counts["s1_checks"] += 1
-                for j in (1, 2):
+                for j in (1, 2, 3):
                     d = oracle.compare(outs[j], outs[0], TOL_S1, path="results")
                     if d:
-                        violate("S1", "schedule-dependent", "the same lazy results computed under two simulated schedules differ: " + "; ".join(d[:2]), "s1")
+                        violate("S1", "schedule-dependent", ("the same lazy results computed under two simulated schedules differ: " if j < 3 else
+                                "the simulated scheduler and dask's synchronous scheduler disagree on the same lazy results: ") + "; ".join(d[:2]), "s1")
                         break
 
             settle("after_rot")
